@@ -163,7 +163,8 @@ class Gen:
         if depth >= self.max_depth:
             return self.num(env)
         k = r.weighted([('num', 2), ('call', 3), ('ifelse', 3), ('switch', 2), ('count', 2), ('findif', 2), ('callargs', 2),
-                        ('try', 2), ('breakout', 2), ('exitwith', 2), ('inarr', 2), ('selnum', 1), ('isnil', 1)])
+                        ('try', 2), ('breakout', 3), ('exitwith', 2), ('inarr', 2), ('selnum', 1), ('isnil', 1),
+                        ('exc', 3 if self.errors else 0), ('excexit', 2 if self.errors else 0)])
         self.note('v:' + k)
         if k == 'num':
             return self.num(env)
@@ -176,13 +177,19 @@ class Gen:
         if k == 'switch':
             return self.switch(env, depth + 1, True)
         if k == 'count':
-            return ('countc', self.boolean(self.sub(env, x=True)), self.arr(env))
+            return ('countc', self.boolean(self.sub(env, x=True)), self.arr(env), self.prex(env))
         if k == 'findif':
-            return ('findif', self.arr(env), self.boolean(self.sub(env, x=True)))
+            return ('findif', self.arr(env), self.boolean(self.sub(env, x=True)), self.prex(env))
         if k == 'try':
             return ('try', self.num(env), self.boolean(env), self.num(env), self.num(env), self.num(self.sub(env, exc=True)))
         if k == 'breakout':
-            return ('breakout', self.fresh('s'), self.num(env), self.num(env), r.below(3))
+            # few names: the same scope name is met again in dynamically enclosing scopes
+            return ('breakout', r.choice(['sa', 'sb']), self.num(env), self.num(env), r.below(5), self.num(env))
+        if k == 'exc':
+            return self.handler(env, depth, True)
+        if k == 'excexit':
+            inj = lambda e: ('err', r.choice(['(1 + "a")', '([] select 5)'])) if r.chance(1, 2) else e
+            return ('excexit', self.boolean(env), self.num(env), inj(self.num(env)), self.num(env), inj(self.num(env)), self.num(env), self.num(env))
         if k == 'exitwith':
             return ('exitwithv', self.boolean(env), self.num(env), self.num(env), self.num(env), self.num(env))
         if k == 'inarr':
@@ -192,6 +199,35 @@ class Gen:
             return ('selnum', [self.num(env, 1) for _ in range(n)], r.below(n))
         return ('isnilc', r.choice([self.num(env), ('nil',), ('call', ('block', [], None))]))
 
+    def prex(self, env):
+        """optionally an expression assigned to _x before the predicate/body of an iteration is evaluated:
+        the iteration must keep working on the array's own elements"""
+        if self.r.chance(1, 3):
+            self.note('x-reassigned')
+            return self.num(self.sub(env, x=True), 1)
+        return None
+
+    def handler(self, env, depth, value):
+        """{ body } except__ { handler }: the body usually raises an error, often from a nested frame while
+        operands of an enclosing expression are pending"""
+        r = self.r
+        self.note('except')
+        body = self.block(env, depth + 1, value)
+        stmts = list(body[1])
+        kind = r.weighted([('none', 1), ('stmt', 2), ('nested', 3), ('last', 1)])
+        errtxt = r.choice(['(1 + "a")', '(true + 1)', '([] select 5)'])
+        if kind == 'stmt':
+            stmts.insert(r.below(len(stmts) + 1), ('mark', ('err', errtxt)))
+        elif kind == 'nested':
+            stmts.insert(r.below(len(stmts) + 1),
+                         ('mark', ('cnt', ('arrv', [self.num(env), self.num(env), ('call', ('block', [('mark', self.num(env))], ('err', errtxt)))]))))
+        elif kind == 'last':
+            stmts.append(('mark', ('err', errtxt)))
+        body = ('block', stmts, body[2])
+        hval = value and r.chance(2, 3)
+        hb = self.block(self.sub(env), depth + 1, hval)
+        return ('exc', body, hb)
+
     def stmt(self, env, depth):
         r = self.r
         if depth >= self.max_depth:
@@ -199,7 +235,8 @@ class Gen:
         else:
             k = r.weighted([('mark', 6), ('assign', 5 if not self.scoping else 9), ('markv', 5), ('if', 3), ('while', 3), ('for', 3), ('foreach', 3),
                             ('switch', 2), ('call', 3 if not self.scoping else 6), ('apply', 2), ('select', 2), ('try', 2),
-                            ('private', 1 if not self.scoping else 4), ('exitwith', 1), ('global', 2 if not self.scoping else 5), ('arrvar', 1)])
+                            ('private', 1 if not self.scoping else 4), ('exitwith', 1), ('global', 2 if not self.scoping else 5), ('arrvar', 1),
+                            ('excst', 3 if self.errors else 0)])
         self.note(k)
         if k == 'mark':
             return ('mark', self.num(env))
@@ -251,17 +288,22 @@ class Gen:
                 a, b = b, a
             return ('for', v, a, b, step, self.block(self.sub(env, ro=env['ro'] + [v]), depth + 1))
         if k == 'foreach':
-            return ('foreach', self.block(self.sub(env, x=True, fei=True), depth + 1), self.arr(env))
+            e = self.sub(env, x=True, fei=True)
+            if r.chance(1, 3):
+                e['loc'] = e['loc'] + ['_x']          # the body may assign _x: later iterations still see the elements
+            return ('foreach', self.block(e, depth + 1), self.arr(env))
         if k == 'switch':
             return self.switch(env, depth + 1, False)
         if k == 'call':
             if r.chance(1, 2):
                 return ('callst', None, self.block(env, depth + 1))
             return ('callst', self.num(env), self.block(self.sub(env, this=True), depth + 1))
+        if k == 'excst':
+            return self.handler(env, depth, False)
         if k == 'apply':
-            return ('mark', ('apply', self.arr(env), self.num(self.sub(env, x=True))))
+            return ('mark', ('apply', self.arr(env), self.num(self.sub(env, x=True)), self.prex(env)))
         if k == 'select':
-            return ('mark', ('selectc', self.arr(env), self.boolean(self.sub(env, x=True))))
+            return ('mark', ('selectc', self.arr(env), self.boolean(self.sub(env, x=True)), self.prex(env)))
         if k == 'try':
             return ('tryst', self.num(env), self.boolean(env), self.num(env), self.num(env))
         return ('mark', self.num(env))
@@ -282,6 +324,10 @@ def render_block(b):
     if val is not None:
         parts.append(render(val))
     return '{ ' + '; '.join(parts) + ' }'
+
+
+def pre_x(e):
+    return '' if e is None else '_x = %s; ' % render(e)
 
 
 def render(n):
@@ -327,20 +373,32 @@ def render(n):
             parts.insert(pos, 'default ' + render_block(default))
         return '(switch %s do { %s })' % (render(subj), '; '.join(parts))
     if k == 'countc':
-        return '({%s} count %s)' % (render(n[1]), render(n[2]))
+        return '({%s%s} count %s)' % (pre_x(n[3]), render(n[1]), render(n[2]))
     if k == 'findif':
-        return '(%s findIf {%s})' % (render(n[1]), render(n[2]))
+        return '(%s findIf {%s%s})' % (render(n[1]), pre_x(n[3]), render(n[2]))
     if k == 'apply':
-        return '(%s apply {%s})' % (render(n[1]), render(n[2]))
+        return '(%s apply {%s%s})' % (render(n[1]), pre_x(n[3]), render(n[2]))
     if k == 'selectc':
-        return '(%s select {%s})' % (render(n[1]), render(n[2]))
+        return '(%s select {%s%s})' % (render(n[1]), pre_x(n[3]), render(n[2]))
+    if k == 'exc':
+        return '(%s except__ %s)' % (render_block(n[1]), render_block(n[2]))
+    if k == 'excexit':
+        return '({ if %s exitWith { tr pushBack %s; %s }; tr pushBack %s; %s } except__ { tr pushBack %s; %s })' % tuple(render(x) for x in n[1:8])
     if k == 'try':
         return '(try { tr pushBack %s; if %s then { throw %s }; %s } catch { tr pushBack _exception; %s })' % tuple(render(x) for x in n[1:6])
     if k == 'tryst':
         return 'try { tr pushBack %s; if %s then { throw %s }; tr pushBack %s } catch { tr pushBack _exception }' % tuple(render(x) for x in n[1:5])
     if k == 'breakout':
-        name, mark, val, form = n[1], n[2], n[3], n[4]
+        name, mark, val, form, mark2 = n[1], n[2], n[3], n[4], n[5]
         inner = '%s breakOut "%s"' % (render(val), name)
+        if form == 3:
+            # an inner scope of the same name: breakOut leaves the innermost one only
+            return '(call { scopeName "%s"; tr pushBack %s; call { scopeName "%s"; %s; 95 }; tr pushBack %s; 96 })' % (
+                name, render(mark), name, inner, render(mark2))
+        if form == 4:
+            # … also when the inner scope is two frames down and its value is used
+            return '(call { scopeName "%s"; tr pushBack %s; tr pushBack (call { scopeName "%s"; if (true) then { %s; 94 }; 95 }); 96 })' % (
+                name, render(mark), name, inner)
         wrap = ['call { %s; 99 }', 'if (true) then { %s; 98 }', '{ %s; 97 } forEach [1, 2]'][form] % inner
         return '(call { scopeName "%s"; tr pushBack %s; %s; 96 })' % (name, render(mark), wrap)
     if k == 'exitwithv':
@@ -406,6 +464,7 @@ class Interp:
         self.globals['tr'] = self.tr
         self.scopes = [{}]
         self.steps = 0
+        self.handled = 0          # errors an except__ handler took over
 
     # -- variables ------------------------------------------------------------------------------
     def lookup(self, name):
@@ -488,21 +547,43 @@ class Interp:
             arr = self.ev(n[2])
             c = 0
             for x in arr:
-                if self.in_scope(lambda: self.ev(n[1]), {'_x': x}):
+                if self.in_scope(lambda: self.with_x(n[3], n[1]), {'_x': x}):
                     c += 1
             return c
         if k == 'findif':
             arr = self.ev(n[1])
             for i, x in enumerate(arr):
-                if self.in_scope(lambda: self.ev(n[2]), {'_x': x}):
+                if self.in_scope(lambda: self.with_x(n[3], n[2]), {'_x': x}):
                     return i
             return -1
         if k == 'apply':
             arr = self.ev(n[1])
-            return [self.in_scope(lambda: self.ev(n[2]), {'_x': x}) for x in arr]
+            return [self.in_scope(lambda: self.with_x(n[3], n[2]), {'_x': x}) for x in arr]
         if k == 'selectc':
             arr = self.ev(n[1])
-            return [x for x in arr if self.in_scope(lambda: self.ev(n[2]), {'_x': x})]
+            return [x for x in arr if self.in_scope(lambda: self.with_x(n[3], n[2]), {'_x': x})]
+        if k == 'exc':
+            return self.do_except(lambda: self.run_block(n[1]), lambda: self.run_block(n[2]))
+        if k == 'excexit':
+            def body():
+                if self.ev(n[1]):
+                    def blk():
+                        self.mark(self.ev(n[2]))
+                        return self.ev(n[3])
+                    raise ExitScope(self.in_scope(blk))
+                self.mark(self.ev(n[4]))
+                return self.ev(n[5])
+
+            def guarded():
+                try:
+                    return body()
+                except ExitScope as e:
+                    return e.value
+
+            def handler():
+                self.mark(self.ev(n[6]))
+                return self.ev(n[7])
+            return self.do_except(guarded, handler)
         if k == 'try':
             def body():
                 self.mark(self.ev(n[1]))
@@ -517,13 +598,32 @@ class Interp:
                     return self.ev(n[5])
                 return self.in_scope(handler, {'_exception': t.value})
         if k == 'breakout':
-            name, mark, val, form = n[1], n[2], n[3], n[4]
+            name, mark, val, form, mark2 = n[1], n[2], n[3], n[4], n[5]
 
             def outer():
                 self.mark(self.ev(mark))
 
                 def inner():
                     raise BreakOut(name, self.ev(val))
+                if form == 3 or form == 4:
+                    # an inner scope with the same name catches it: the innermost named scope is left
+                    def inner_scope():
+                        try:
+                            if form == 4:
+                                self.in_scope(inner)
+                            else:
+                                inner()
+                            return 95
+                        except BreakOut as b:
+                            if b.name != name:
+                                raise
+                            return b.value
+                    v = self.in_scope(inner_scope, {'_this': self.lookup('_this')})
+                    if form == 3:
+                        self.mark(self.ev(mark2))
+                    else:
+                        self.mark(v)
+                    return 96
                 if form == 2:
                     for i, x in enumerate([1, 2]):
                         self.in_scope(inner, {'_x': x, '_foreachindex': i})
@@ -555,6 +655,23 @@ class Interp:
             v = self.in_scope(lambda: self.ev(n[1]))
             return self.plain_block(('block', [], ('n', 1 if v is NIL else 0)))
         raise ValueError(k)
+
+    def with_x(self, pre, body):
+        if pre is not None:
+            self.assign('_x', self.ev(pre))
+        return self.ev(body)
+
+    def do_except(self, body, handler):
+        """{ body } except__ { handler }: an error raised while the body runs (at any depth) passes control
+        once to the handler, which runs in a fresh scope holding _exception; the construct yields the value
+        of whichever block finished. Errors the reference does not decide (nil operands) stay undecided."""
+        try:
+            return self.in_scope(body)
+        except RuntimeErr as e:
+            if not e.injected:
+                raise
+            self.handled += 1
+            return self.in_scope(handler, {'_exception': 'exc'})
 
     def throw(self, v):
         if v is NIL:
